@@ -35,6 +35,7 @@ PROPS = {
     "C18": {
         "module": "Cuke.Props.C18",
         "namespace": "Cuke.C18",
+        "skip_prefixes": ["mon.c10"],
         "families": [("retry.resolve", 10000, 300000), ("sched.run", 1000, 40000)],
         # the last clause (CLI --concurrency overrides, --fail-fast adds to the builder settings) is decided by how the
         # scheduler behaves: classes K (slot accounting incl. limit resolution) and FF of the scheduler runs
@@ -66,6 +67,7 @@ PROPS = {
     "C01": {
         "module": "Cuke.Props.C01",
         "namespace": "Cuke.C01",
+        "skip_prefixes": ["mon.c10"],
         "families": [("pipe.verdict", 5000, 150000), ("exit.run", 3000, 80000), ("sched.run", 1000, 40000)],
         "segments": {"sched.run": [14]},
         "segment_names": ['c01'],
@@ -116,6 +118,7 @@ PROPS = {
     "C03": {
         "module": "Cuke.Props.C03",
         "namespace": "Cuke.C03",
+        "skip_prefixes": ["mon.c10"],
         "families": [("sched.run", 1000, 40000), ("sched.lazy", 600, 30000), ("sched.custom", 400, 15000)],
         "segments": {"sched.run": [3, 5, 2, 4, 7], "sched.mon": [7]},
         "segment_names": ['B', 'I', 'R', 'FF', 'c03'],
@@ -124,6 +127,7 @@ PROPS = {
     "C04": {
         "module": "Cuke.Props.C04",
         "namespace": "Cuke.C04",
+        "skip_prefixes": ["mon.c10"],
         "families": [("sched.run", 1000, 40000), ("sched.lazy", 600, 30000), ("sched.custom", 400, 15000)],
         "segments": {"sched.run": [5, 0, 2, 1, 8], "sched.mon": [8]},
         "segment_names": ['I', 'Q', 'R', 'K', 'c04'],
@@ -142,6 +146,7 @@ PROPS = {
     "C06": {
         "module": "Cuke.Props.C06",
         "namespace": "Cuke.C06",
+        "skip_prefixes": ["mon.c10"],
         "families": [("sched.run", 1000, 40000), ("sched.lazy", 600, 30000)],
         "segments": {"sched.run": [1, 0, 10]},
         "segment_names": ['K', 'Q', 'c06'],
@@ -150,6 +155,7 @@ PROPS = {
     "C07": {
         "module": "Cuke.Props.C07",
         "namespace": "Cuke.C07",
+        "skip_prefixes": ["mon.c10"],
         "families": [("sched.run", 1000, 40000), ("sched.lazy", 600, 30000)],
         "segments": {"sched.run": [0, 1, 5, 11]},
         "segment_names": ['Q', 'K', 'I', 'c07'],
